@@ -313,13 +313,21 @@ static uint64_t shape_hash(const Edge& e) {
 }
 
 // feature-neutral view of an edge (C16, C19): what a program that uses neither plans, history, serialization nor logging can observe
-static Set64 neutral_set; static uint64_t neutral_sum = 0; static bool want_neutral = false;
+static Set64 neutral_set; static uint64_t neutral_sum = 0; static unsigned want_neutral = 0;   // bit0 base view, bit1 + transition history, bit2 + plans, bit3 + serialization
 static void neutral_add(const Edge& e) {
 	uint64_t h = 1469598103934665603ull;
 	uint8_t hd[16]; int n = 0;
 	hd[n++] = e.initial ? 255 : e.pre.active; hd[n++] = e.initial ? 255 : e.pre.req.o; hd[n++] = e.initial ? 255 : e.pre.req.d; hd[n++] = e.initial ? 0 : e.pre.req.tag;
 	hd[n++] = e.op.k; hd[n++] = e.op.k == OP_CONSTRUCT ? 0 : e.op.a; hd[n++] = e.op.b; hd[n++] = e.op.c;
 	h = fnv(hd, n, h); h = fnv(e.dev_pos, sizeof(uint16_t) * e.ndev, h); h = fnv(e.dev_alt, sizeof(uint16_t) * e.ndev, h);
+	if ((want_neutral & 2) && !e.initial) h = fnv(&e.pre.prev, sizeof(TxS), h);
+	if ((want_neutral & 4) && !e.initial) { h = fnv(&e.pre.planlen, 1, h); h = fnv(e.pre.plan, sizeof(TxS) * (e.pre.planlen < MAXPLAN ? e.pre.planlen : MAXPLAN), h); }
+	if ((want_neutral & 8) && e.op.k == OP_SAVE) { h = fnv(&e.res.saveOk, 1, h);
+#if VX_SER
+		h = fnv(&g_savebuf.buf, sizeof g_savebuf.buf, h);
+#endif
+	}
+	h = fnv(&e.res.ret, 1, h);
 	for (int i = 0; i < e.nev; ++i) {
 		const Ev& v = e.tr[i];
 		if (v.kind >= EV_LOG_METHOD && v.kind <= EV_LOG_PLAN) continue;
@@ -328,8 +336,12 @@ static void neutral_add(const Edge& e) {
 		if (v.kind == EV_CB) { b[k++] = v.ctl_sid; b[k++] = v.ctl_mask; b[k++] = v.m_active; b[k++] = v.m_mask; b[k++] = v.flags & (OF_CTX | OF_EVENT | OF_THIS); b[k++] = v.ctl;
 			b[k++] = v.req.o; b[k++] = v.req.d; b[k++] = v.req.tag; b[k++] = v.pend.o; b[k++] = v.pend.d; b[k++] = v.pend.tag; b[k++] = v.cur.o; b[k++] = v.cur.d; b[k++] = v.cur.tag; }
 		h = fnv(b, k, h);
+		if (v.kind == EV_CB && (want_neutral & 2)) h = fnv(&v.prev, sizeof(TxS), h);
+		if (v.kind == EV_CB && (want_neutral & 4)) { h = fnv(&v.planlen, 1, h); h = fnv(&v.planbool, 1, h); h = fnv(v.plan, sizeof(TxS) * (v.planlen < MAXPLAN ? v.planlen : MAXPLAN), h); }
 	}
-	if (!e.terminal) { uint8_t t[4] = {e.post.active, e.post.req.o, e.post.req.d, e.post.req.tag}; h = fnv(t, 4, h); }
+	if (!e.terminal) { uint8_t t[4] = {e.post.active, e.post.req.o, e.post.req.d, e.post.req.tag}; h = fnv(t, 4, h);
+		if (want_neutral & 2) h = fnv(&e.post.prev, sizeof(TxS), h);
+		if (want_neutral & 4) { h = fnv(&e.post.planlen, 1, h); h = fnv(e.post.plan, sizeof(TxS) * (e.post.planlen < MAXPLAN ? e.post.planlen : MAXPLAN), h); } }
 	h = mix(h);
 	if (neutral_set.add(h)) neutral_sum += h;
 }
@@ -707,7 +719,8 @@ int main(int argc, char** argv) {
 		else if (!strcmp(a, "--copy")) opt.companions_copy = true;
 		else if (!strcmp(a, "--loadpairs")) opt.companions_load = true;
 		else if (!strcmp(a, "--no-fresh")) opt.verify_fresh = false;
-		else if (!strcmp(a, "--neutral")) want_neutral = true;
+		else if (!strcmp(a, "--neutral")) want_neutral = 1;
+		else if ((v = val("--neutral"))) want_neutral = static_cast<unsigned>(atoi(v)) | 1u;
 		else if (!strcmp(a, "-v")) opt.verbose = true;
 		else if (!strcmp(a, "--info")) { printf("N=%d head=%d manual=%d payload=%d L=%d cap=%d plans=%d log=%d hist=%d ser=%d sizeof(Inst)=%zu\n", N, VX_HEAD, VX_MANUAL, VX_PAYLOAD, VX_L, TASK_CAP, VX_PLANS, VX_LOG, VX_HIST, VX_SER, INST_SIZE); return 0; }
 		else die("unknown argument %s", a);
